@@ -154,6 +154,13 @@ def check(ctx):
     parsers_found = []
     for key_, want_ in want_parser.items():
         vals = {x[3] for t_ in [us_.ret()] for x in ir.walk(t_) if x[0] == "setitem" and x[2] == ("const", key_)}
+        if not vals:
+            # the recovery may sit in get_units itself (moved there / a helper inlined back), applied to the units taken from the feed
+            try:
+                gsum_ = ctx.builder().summarize(ctx.fn(CDM, "CombinedDataHandler.get_units"))
+                vals = {t_[3] for _pc, _n, t_, _s in gsum_.assigns if t_[0] == "setitem" and t_[2] == ("const", key_)}
+            except AnalysisError:
+                vals = set()
         okp, detail_ = bool(vals), f"{key_} is not recovered for unexpected units"
         for v_ in vals:
             parser = v_[2][0] if v_[0] == "call" and v_[1][0] == "attr" and v_[1][2] in ("apply", "map") and len(v_[2]) == 1 else None
